@@ -368,6 +368,11 @@ def basis_cases(res, rng, tier):
         for x, tag, row in zip(xs, tags, rows):
             if isinstance(row, tuple) and row[0] == 'ERR':
                 continue
+            if periodic and k == 0 and scaled(x, ek, True)[1] >= P_FLOAT:
+                # binary64 `x % p` returned the divisor p itself (tiny negative x): no real-number model can
+                # reproduce that; the all-zero row it produces is reported by the direct probe (S10)
+                res.count('float_modulo_returned_divisor(skipped in correspondence, probed directly)')
+                continue
             alts = alternatives(x, ek, n, k, periodic)
             nadj += 1 if alts else 0
             pts.append(point_coq(x, alts, 1.0, row))
